@@ -39,7 +39,7 @@ def _describe(group, case):
 SPEC = {
     "uses_gen": ["Routes"],
     "cmd": "c27",
-    "budget": (8600, 100000),
+    "budget": (6900, 100000),
     "header": "From Coq Require Import String List ZArith Bool.\nFrom Sky Require Import Base.Uint Model.ApiAccess Gen.Routes Model.ApiRoutes.\nImport ListNotations.\nOpen Scope Z_scope.",
     "gen_header": "",
     "corr": "C27_corr.v",
